@@ -246,6 +246,7 @@ def pyview(v, opq):
 
 
 # ------------------------------------------------------------------ Gallina printers
+CHUNK = 35
 CANON = re.compile(r"0|[1-9][0-9]*", re.ASCII)
 
 
@@ -501,14 +502,14 @@ def check_tree_attrs(n, path, bad):
 def run(ctx):
     ctx.coq_props()
     rng = ctx.rng
-    n = 260 if ctx.tier == "quick" else 2500
+    n = 180 if ctx.tier == "quick" else 2500
     cases = corpus()
     while len(cases) < n:
         cases.append(gen_case(rng, ctx.tier))
     res = ctx.run_impl("c64_impl.py", {"cases": cases, "probes": True})
     obs, opq = res["obs"], res["opaque_ids"]
     terms = [g_case(c, o, opq) for c, o in zip(cases, obs)]
-    bad = ctx.coq_eval_cases("cases", "From PLV Require Import Disc.CodecModel.", terms, "check_case", chunk=100)
+    bad = ctx.coq_eval_cases("cases", "From PLV Require Import Disc.CodecModel.", terms, "check_case", chunk=CHUNK)
 
     hist = {"ops": {}, "values": {}, "errors": 0, "vias": {}}
     nontrivial = set()
@@ -551,7 +552,7 @@ def run(ctx):
                           what="on-disk attribute metadata inconsistent: " + attr_bad[0])
     for i in bad:
         ctx.violation("corr:" + json.dumps(cases[i], sort_keys=True),
-                      {"case": cases[i], "implementation": obs[i], "model_term": f"coq/Gen/C64/cases_{i // 100}.v item {i % 100}"},
+                      {"case": cases[i], "implementation": obs[i], "model_term": f"coq/Gen/C64/cases_{i // CHUNK}.v item {i % CHUNK}"},
                       what="on-disk layout / read-back values / statuses differ from the proved model of the dataset codecs")
     # ---- fixed probe outside the generated grammar (dict key containing '/')
     pr = res.get("probes", {}).get("dict_key_slash")
